@@ -16,21 +16,36 @@ for p in PRE0:
     else:
         PRE.append(p)
 LIVE = "live@.subset_of(all_reads(out@).union(live_out@))"
+NEEDS = "names_are_read(needs_decl@, out@, live_out@), assigned_are_read(out@, live_out@)"
 
 
 def loop_inv(k, header, kw):
     if "__sv.len()" in header:
-        return (f"invariant __sv@ == ins0.subrange(0, __sv@.len() as int), __sv@.len() <= ins0.len(), {LIVE}, decls_used(out@, live_out@),\n"
+        return (f"invariant __sv@ == ins0.subrange(0, __sv@.len() as int), __sv@.len() <= ins0.len(), {LIVE}, decls_used(out@, live_out@), {NEEDS},\n"
                 f"decreases __sv@.len(),")
     if "__cv.len()" in header:
         return ("invariant new_cases@.len() + __cv@.len() == __c0.len(), __cv@ == __c0.subrange(new_cases@.len() as int, __c0.len() as int), live@.subset_of(__l0.union(all_cases(new_cases@))), cases_live_in@.subset_of(__l0.union(all_cases(new_cases@))),\n"
+                "  forall|n: Seq<char>| #[trigger] all_cnames(1, new_cases@).contains(n) && n != \"_\"@ ==> all_cases(new_cases@).union(__l0).contains(n),\n"
+                "  forall|n: Seq<char>| #[trigger] needs_decl@.contains(n) && n != \"_\"@ ==> all_reads(out@).union(live_out@).union(all_cases(new_cases@)).contains(n),\n"
                 "decreases __cv@.len(),")
     if re.search(r"while\s+__i\d+\s*<", header):      # an `X.iter().any(..)` (rule iter_any): its answer plays no part
         mt = re.search(r"while\s+(__i\d+)\s*<\s*([\w\.]+)\.len\(\)", header)
         return f"invariant {mt.group(1)} <= {mt.group(2)}.len(),\ndecreases {mt.group(2)}.len() - {mt.group(1)},"
     if "__tv.len()" in header:
         return ("invariant new_cases@.len() + __tv@.len() == __t0.len(), __tv@ == __t0.subrange(new_cases@.len() as int, __t0.len() as int), cases_live_in@.subset_of(live@.union(all_tcases(new_cases@))),\n"
+                "  forall|n: Seq<char>| #[trigger] all_tnames(1, new_cases@).contains(n) && n != \"_\"@ ==> all_tcases(new_cases@).union(live@).contains(n),\n"
+                "  forall|n: Seq<char>| #[trigger] needs_decl@.contains(n) && n != \"_\"@ ==> all_reads(out@).union(live_out@).union(all_tcases(new_cases@)).contains(n),\n"
                 "decreases __tv@.len(),")
+    return None
+
+
+def ASSIGNED_LOOPS(k, header, kw, body=None):
+    if "__si <" in header:
+        return "invariant __si <= b.stmts@.len(), s@ =~= seq_names(1, b.stmts@, __si as int),\ndecreases b.stmts@.len() - __si,"
+    if "__ci <" in header:
+        which = "cases_names" if k == 1 else "tcases_names"      # the first cases loop is SwitchExpr's (Expr, Block) list, the second SwitchType's (GoType, Block) list
+        return (f"invariant __ci <= cases@.len(), s@ =~= __s0.union({which}(1, cases@, __ci as int)), __si >= 1, __si <= b.stmts@.len(), *stmt == b.stmts@[__si - 1],\n"
+                "decreases cases@.len() - __ci,")
     return None
 
 
@@ -39,14 +54,15 @@ UNIT = Unit(
     properties=["C02"],
     rules=[("strip", "ast::"), "opt_map", "let_chain_rev", "opt_is_some_and", "opt_is_none_or", "iter_any"],
     describe="go::dce::dce_block_with_live, the liveness bookkeeping behind `no local variable is left unused`: every name in the live set is READ by a statement "
-             "that was kept (at any depth) or is live on exit of the block — so a declaration that is kept WITH its initialiser (the function keeps one only if its "
-             "name is live) is read by a statement that follows it; the live-in set handed back to the enclosing block obeys the same rule. A change that marks a "
+             "that was kept (at any depth) or is live on exit of the block — so every declaration that is kept (with its initialiser because its name is live; bare because "
+             "a KEPT assignment needs it, and an assignment is kept only for a live variable) is read by a statement that follows it; the live-in set handed back to "
+             "the enclosing block obeys the same rule, and so do the variables the block assigns. A change that marks a "
              "variable live for a statement it then drops (seed C02-effect-free-if-dropped) breaks the invariant",
     trusted=["vars_used_in_expr / add_uses_expr are stubs over the uninterpreted function expr_reads (WHICH variables an expression reads is not verified here); "
              "dce_expr is a stub; HashSet<String> is a finite set of names (shim with insert / remove / extend / contains); effect_stmt and "
              "expr_has_side_effects appear with contracts proved here / in U-DCEFX",
-             "NOT covered: declarations kept WITHOUT initialiser because the variable is assigned later (needs_decl / assigned_vars_in_block are opaque); shadowing (names "
-             "are unique after renaming: assumed); that Go counts exactly these reads as uses",
+             "dce::assigned_vars_in_block is verified (whole function): exactly the variables a block assigns with `=`, at any depth",
+             "NOT covered: shadowing (names are unique after renaming: assumed); that Go counts exactly these reads as uses; the blank identifier `_` is exempt",
              "`for s in v.into_iter().rev()` is rewritten to popping from the back, `for x in v` (by value) to removing from the front, `v.reverse()` to a shim "
              "(std semantics assumed)"],
     items=types + [
@@ -55,17 +71,25 @@ UNIT = Unit(
         stmt_eff,
         Fn(file=G + "dce.rs", name="call_allowed_as_stmt", optional=True, contract_only=True, contract="",
            pre_rewrites=[(re.compile(r"matches!\(\s*(\w+)\.as_str\(\),\s*((?:\"[^\"]*\"\s*\|?\s*)+)\)", re.S), kw_matches, 1)]),
+        Fn(file=G + "dce.rs", name="assigned_vars_in_block", ret="r", attrs="#[verifier::loop_isolation(false)]",
+           pre_rewrites=[("for stmt in &b.stmts {", "let mut __si: usize = 0; while __si < b.stmts.len() { let stmt = &b.stmts[__si]; __si += 1;", 1),
+                         (re.compile(r"for \((_e|_t), blk\) in cases \{"), "let ghost __s0 = s@; let mut __ci: usize = 0; while __ci < cases.len() { let blk = &cases[__ci].1; __ci += 1;", "*")],
+           rewrites=[(re.compile(r"\.clone\(\)"), ".vclone()", "*"), ("let mut s = HashSet::new();", "let mut s: HashSet<String> = HashSet::new();", 1)],
+           obligation="the set is exactly the variables the block assigns with `=`, at any depth (all_assigned)",
+           contract="ensures r@ == all_assigned(b.stmts@),\n        decreases *b,",
+           ghost=[("@loop:0:body", "", "proof { assert(seq_names(1, b.stmts@, __si + 1) == seq_names(1, b.stmts@, __si as int).union(stmt_names(1, b.stmts@[__si as int]))); }")],
+           loop_fn=ASSIGNED_LOOPS),
         Fn(file=G + "dce.rs", name="effect_stmt", ret="r", rewrites=[('"_".to_string()', "underscore()")],
-           contract="ensures stmt_reads(r) == expr_reads(v), !(r is VarDecl),",
+           contract="ensures stmt_reads(r) == expr_reads(v), !(r is VarDecl), stmt_names(1, r).subset_of(one(\"_\"@)),",
            obligation="the replacement statement reads exactly what v reads and declares nothing"),
         Fn(file=G + "dce.rs", name="dce_block_with_live", ret="r", attrs="#[verifier::loop_isolation(false)]\n#[verifier::rlimit(60)]",
            pre_rewrites=PRE, rewrites=RW,
-           obligation="every name of the returned live-in set is read by a kept statement or live on exit; every kept declaration with an initialiser is read by a "
-                      "statement that follows it in the block, or live on exit",
-           contract="ensures r.1@.subset_of(all_reads(r.0.stmts@).union(live_out@)), decls_used(r.0.stmts@.reverse(), live_out@),\n        decreases block,",
+           obligation="every name of the returned live-in set is read by a kept statement or live on exit; every kept declaration (with or without initialiser) is read by a "
+                      "statement that follows it in the block, or live on exit; every variable a kept statement assigns is read by a kept statement or live on exit",
+           contract="ensures r.1@.subset_of(all_reads(r.0.stmts@).union(live_out@)), decls_used(r.0.stmts@.reverse(), live_out@), assigned_are_read(r.0.stmts@, live_out@),\n        decreases block,",
            ghost=[("@entry", "", "let ghost ins0 = block.stmts@;"), ("@entry", "", "proof { broadcast use lemma_reads_push; broadcast use lemma_cases_push; broadcast use lemma_tcases_push; broadcast use lemma_decls_push; }"),
                   ("?vec_reverse(&mut out);", "line-before", "let ghost __o0 = out@;"),
-                  ("?vec_reverse(&mut out);", "line-after", "proof { lemma_reads_reverse(__o0); assert(__o0.reverse().reverse() =~= __o0); }")],
+                  ("?vec_reverse(&mut out);", "line-after", "proof { lemma_reads_reverse(0, __o0); lemma_reads_reverse(1, __o0); assert(__o0.reverse().reverse() =~= __o0); }")],
            loop_fn=loop_inv),
     ],
 )
